@@ -12,7 +12,7 @@ from ..loops import dotted
 from ..nf import NF, Scope, Poly
 from ..repo import Repo, loc, short, AnalysisError, bind_call, positional_params
 from ..resolve import Resolver
-from ..sem import TREE_MAPS, leaf_application
+from ..sem import TREE_MAPS, leaf_application, result_position
 
 EXPLANATION = (
     "R1 decides the dataflow of the two helpers in target_net.py by def-use inlining into a normal form "
@@ -116,11 +116,11 @@ def _lit_canon(nf, sc, cfg, txt, truth, at):
         return f"{'' if truth else '!'}{txt}"
     if isinstance(e, ast.Name):
         # a flag unpacked from the result of a repo function is named by its origin (callee, position), not by the local name
-        ds = cfg.defs_of(at, e.id)
-        if len(ds) == 1 and ds[0].kind == "unpack" and isinstance(ds[0].value, ast.Call) and isinstance(ds[0].value.func, (ast.Name, ast.Attribute)) and ds[0].path:
-            fq = nf.repo.resolve_expr(sc.mi, ds[0].value.func)
+        rp = result_position(cfg, e.id, at)
+        if rp is not None and isinstance(rp[0].func, (ast.Name, ast.Attribute)):
+            fq = nf.repo.resolve_expr(sc.mi, rp[0].func)
             if fq and fq.startswith(nf.repo.PKG + "."):
-                c = f"{fq.rsplit('.', 1)[1]}()[{','.join(str(i) for i in ds[0].path)}]"
+                c = f"{fq.rsplit('.', 1)[1]}()[{rp[1]}]"
                 return c if truth else f"not({c})"
     # truthiness of `x % y`
     if isinstance(e, ast.BinOp) and isinstance(e.op, ast.Mod):
